@@ -482,10 +482,13 @@ def readHeadWords : Nat → Str → List Str × Str
 def notCloseBrace (c : Char) : Bool := c != '}'
 def notOpenBrace (c : Char) : Bool := c != '{'
 
-/-- one `{…}` group after an operand: `{z}`, `{1toN}`, or the mask register `{k1}`; a group may be followed by one blank -/
+def isSuffixDelim (c : Char) : Bool := c == '{' || c == ' '
+
+/-- one `{…}` group after an operand: `{z}`, `{1toN}`, or the mask register `{k1}`; a single blank may separate groups -/
 def suffixStep (env : Env) (o : POperand) (p : Piece) : Option POperand :=
-  if p.1 ≠ some '{' then none
-  else if !(p.2.dropWhile notCloseBrace == ['}'] || p.2.dropWhile notCloseBrace == ['}', ' ']) then none
+  if p = (some ' ', []) then some o
+  else if p.1 ≠ some '{' then none
+  else if p.2.dropWhile notCloseBrace != ['}'] then none
   else
     let body := p.2.takeWhile notCloseBrace
     if body == ['z'] then (if o.zeroing ∨ o.bcast ≠ 0 then none else some { o with zeroing := true })
@@ -502,7 +505,7 @@ def readChunk (env : Env) (chunk : Str) : Option POperand :=
   | rest =>
     (dropLast? ' ' (chunk.takeWhile notOpenBrace)).bind fun main =>
     (parseX86Op env main).bind fun op =>
-    (lexPieces (fun c => c == '{') rest.length rest).foldlM (suffixStep env) { op := op }
+    (lexPieces isSuffixDelim rest.length rest).foldlM (suffixStep env) { op := op }
 
 def roundingWords : List String := ["sae", "rn-sae", "rd-sae", "ru-sae", "rz-sae"]
 
